@@ -155,6 +155,31 @@ P { margin-left: 1pt; text-align: center; font-size: 10pt; color: white; }
 <SYNC start="3000"><P class="ENCC"><span class="hl">right</span> text</P></SYNC>
 </BODY></SAMI>
 """
+DFXP_SLOPPY = """<?xml version="1.0" encoding="utf-8"?>
+<tt xml:lang="en" xmlns="http://www.w3.org/ns/ttml" xmlns:tts="http://www.w3.org/ns/ttml#styling">
+ <head>
+  <styling>
+   <style xml:id="s1" tts:color="red"/>
+   <style xml:id="s2" tts:color="blue" tts:fontStyle="italic"/>
+   <style xml:id="s3" tts:fontFamily="Arial"/>
+  </styling>
+  <layout>
+   <region xml:id="ra" tts:origin="10% 10%" tts:extent="30% 10%"/>
+   <region xml:id="rb" tts:origin="50% 10%" tts:extent="30% 10%"/>
+   <region xml:id="rc" tts:origin="10% 50%" tts:extent="30% 10%"/>
+   <region xml:id="rd" tts:origin="50% 50%" tts:extent="30% 10%"/>
+  </layout>
+ </head>
+ <body>
+  <div xml:lang="en-US">
+   <p begin="00:00:01.000" end="00:00:02.000" style="s1  s2">doubled blank</p>
+   <p begin="00:00:03.000" end="00:00:04.000" style="s3 s1 s3 s2">repeated id</p>
+   <p begin="00:00:05.000" end="00:00:06.000" style=" s2 s1 ">padded</p>
+   <p begin="00:00:07.000" end="00:00:08.000"><span region="ra">one</span> <span region="rb">two</span> <span region="rc">three</span> <span region="rd">four</span></p>
+  </div>
+ </body>
+</tt>
+"""
 VTT_BAD = "WEBVTT\n\n00:05.000 --> 00:02.000\nend before start\n\n00:06.000 --> 00:07.000\nfine\n"
 SRT_NONE = "1\n"
 
@@ -163,7 +188,7 @@ def docs():
     return {
         "scc_long": ("SCC", SCC_LONG), "scc_left": ("SCC", SCC_LEFT), "scc_badtc": ("SCC", SCC_BADTC),
         "dfxp_none": ("DFXP", DFXP_NONE), "dfxp_ta": ("DFXP", DFXP_TA), "sami_ta": ("SAMI", SAMI_TA),
-        "vtt_bad": ("WebVTT", VTT_BAD), "srt_none": ("SRT", SRT_NONE),
+        "vtt_bad": ("WebVTT", VTT_BAD), "srt_none": ("SRT", SRT_NONE), "dfxp_sloppy": ("DFXP", DFXP_SLOPPY),
         "srt1": ("SRT", _head(_ex("example.srt"), "\n\n", 8)), "srt2": ("SRT", SRT2),
         "vtt1": ("WebVTT", _head(_ex("example.vtt"), "\n\n", 9)), "vtt2": ("WebVTT", VTT2),
         "dfxp1": ("DFXP", DFXP1), "dfxp2": ("DFXP", DFXP2), "dfxp_px": ("DFXP", DFXP_PX),
@@ -199,6 +224,17 @@ BUILDS = {
         {"s": 1000000, "e": 2000000, "style": {"class": "c1", "text-align": "right"}, "nodes": [["t", "aligned"]]},
         {"s": 3000000, "e": 4000000, "nodes": [["s", True, {"class": "c2"}], ["t", "span"], ["s", False, {"class": "c2"}]]}]}],
         "styles": {"c1": {"text-align": "center", "color": "red"}, "c2": {"text-align": "left"}}},
+    "b_empty": {"langs": []},
+    "b_nodelayouts": {"langs": [{"lang": "en-US", "caps": [
+        {"s": 1000000, "e": 2000000, "nodes": [["t", "one", {"o": [["10", "%"], ["10", "%"]]}], ["b"],
+                                                ["t", "two", {"o": [["50", "%"], ["10", "%"]]}], ["b"],
+                                                ["t", "three", {"o": [["10", "%"], ["50", "%"]]}], ["b"],
+                                                ["t", "four", {"o": [["50", "%"], ["50", "%"]], "a": ["center", "top"]}], ["b"],
+                                                ["t", "five", {"o": [["30", "%"], ["70", "%"]], "e": [["40", "%"], ["20", "%"]]}]]},
+        {"s": 3000000, "e": 4000000, "nodes": [["s", True, {"italics": True}, {"o": [["20", "%"], ["20", "%"]]}],
+                                                ["t", "six", {"o": [["20", "%"], ["20", "%"]]}],
+                                                ["s", False, {"italics": True}, {"o": [["20", "%"], ["20", "%"]]}],
+                                                ["t", " seven", {"o": [["60", "%"], ["20", "%"]]}]]}]}]},
     "b_px": {"langs": [{"lang": "en-US", "caps": [
         {"s": 1000000, "e": 2000000, "layout": PX, "nodes": [["t", "pixels"]]}]}]},
     "b_multi": {"langs": [
